@@ -402,6 +402,8 @@ def jobs(tier):
         for t in TEMPLATES[kind]:
             cfg = TR if (kind == "timepoint" and t[0] in "T-") else None
             for w in ((1, 2, 3, 4) if th else (1, 2, 3)):
+                if w > len(t):
+                    continue
                 if kind == "recurrence" and t.count("Z") == 2 and w > 1 and not th:
                     continue        # start/second-point template: each path subtracts two symbolic points (slow)
                 J.append(("job_garbage", dict(kind=kind, template=t, npos=w, cfg=cfg)))
